@@ -53,6 +53,8 @@ def cases(tier, seed, prep=None):
         out.append({"kind": "mismatch", "seed": seed * 1000003 + 910000 + i, "close_at": (i * 7) % 160, "who": "AB"[i % 2]})
     for i in range(30 if q else 800):
         out.append({"kind": "crowded", "seed": seed * 1000003 + 920000 + i})
+    for i in range(40 if q else 1000):
+        out.append({"kind": "late-unwelcome", "seed": seed * 1000003 + 940000 + i, "at": 20 + (i * 13) % 250, "who": "AB"[i % 2]})
     for i in range(20 if q else 500):
         out.append({"kind": "unwelcome", "seed": seed * 1000003 + 930000 + i, "welcome_error": "go away %d" % i,
                     "close_at": (i * 5) % 60, "who": "AB"[i % 2]})
@@ -124,6 +126,14 @@ def run_case(spec):
         who = drv.app(spec["who"])
         sch.faults.append((spec["close_at"], lambda: do_close(who, spec.get("ncalls", 1)), "close " + spec["who"]))
         sch.faults.sort(key=lambda f: f[0])
+    elif kind == "late-unwelcome":
+        # the server starts greeting with an error (operator restart with --signal-error); the next
+        # reconnect of `who` meets it
+        def turn():
+            world.welcome_override = {"error": "server going away"}
+        sch.faults.append((spec["at"], turn, "welcome error from now on"))
+        sch.faults.append((spec["at"] + rng.randint(1, 30), lambda: drv.drop(spec["who"]), "drop " + spec["who"]))
+        sch.faults.sort(key=lambda f: f[0])
     elif kind == "closerandom":
         for name in rng.sample("AB", rng.choice([1, 2])):
             k = rng.randint(0, 200)
@@ -180,6 +190,18 @@ def run_case(spec):
             viol.append({"key": "C08/verdict/%s-instead-of-%s" % (verdict, model),
                          "msg": "%s: closed with %r but the first terminal event (step %s) implies %r" % (app.name, verdict, mstep, model),
                          "witness": wit()})
+        # ground truth: a welcome{error} or a server `error` the client processed must reach the Boss
+        for (stp, msg) in app.inbound:
+            if msg.get("type") == "welcome" and isinstance(msg.get("welcome"), dict) and "error" in msg["welcome"]:
+                if not any(i == "rx_unwelcome" and st2 == stp for (st2, _, i) in app.binputs):
+                    viol.append({"key": "C08/welcome-error-ignored", "msg": "%s processed a welcome with error %r at step %d but the Boss never got rx_unwelcome; verdict %s" % (
+                        app.name, msg["welcome"]["error"], stp, verdict), "witness": wit()})
+                    break
+            if msg.get("type") == "error":
+                if not any(i == "rx_error" and st2 == stp for (st2, _, i) in app.binputs):
+                    viol.append({"key": "C08/server-error-ignored", "msg": "%s processed server error %r at step %d but the Boss never got rx_error" % (app.name, msg.get("error"), stp),
+                                 "witness": wit()})
+                    break
         # ground truth of the Boss inputs themselves
         inputs = [i for (_, _, i) in app.binputs]
         mismatch = kind == "mismatch"
